@@ -144,11 +144,15 @@ type histOpts struct {
 	skips      bool // executions may end with a snaps.Skip* call
 	blocked    bool // extra calls through a config whose directory cannot be created
 	crlf       bool // the files may be converted to CRLF line ends between two processes
+	otherRunners bool // tests of other runners (Benchmark…, Fuzz…): only for histories without Clean (its headers are `[Test…`)
 }
 
 func genHistory(t *rapid.T, col *collector, ho histOpts) histCase {
 	ntests := rapid.IntRange(1, ho.tests).Draw(t, "ntests")
-	names := withOtherRunners(t, genNamePool(t, ntests+1))
+	names := genNamePool(t, ntests+1)
+	if ho.otherRunners {
+		names = withOtherRunners(t, names)
+	}
 	o := textOpts{escapeToken: true, headerLike: true, names: names, maxLines: 4}
 	c := histCase{Cfgs: []CfgSpec{{Dir: "snaps", Filename: "f"}}}
 	if rapid.IntRange(0, 2).Draw(t, "twofiles") == 0 {
@@ -734,7 +738,7 @@ func callText(c Call) string {
 
 func genC03(t *rapid.T) histCase {
 	col := getCollector("C03", "TestC03_History")
-	return genHistory(t, col, histOpts{tests: 4, maxProcs: 3, interleave: true, failing: true, updOptions: true, ci: true, crlf: true})
+	return genHistory(t, col, histOpts{tests: 4, maxProcs: 3, interleave: true, failing: true, updOptions: true, ci: true, crlf: true, otherRunners: true})
 }
 
 func checkC03(c histCase) error { return runHistory(c, histHooks{}) }
